@@ -148,16 +148,18 @@ package config
 // the trie's business and is not proved.
 //@ ghost var pdecl gmap[string]bool
 //@ ghost var pval gmap[string]*map[urltree.Method]EndpointPolicy
+// pkey(u): the form under which the trie stores a declared URL (leading/trailing separators ignored); the model is keyed by it
+//@ ghost func pkey(u string) string = strings.Trim(u, "./")
 //@ ghost func best(d gmap[string]bool, u string) string
 //@ axiom[best-is-declared] forall(d, "gmap[string]bool", forall(u, string, best(d, u) != "" ==> d[best(d, u)]))
 //@ axiom[declared-finds-itself] forall(d, "gmap[string]bool", forall(u, string, d[u] && u != "" ==> best(d, u) == u))
 //@ extern URLTree.Lookup
 //@   modifies nothing
-//@   ensures[none] best(pdecl, url) == "" ==> result.Value == nil
-//@   ensures[the-matched-node] best(pdecl, url) != "" ==> result.Value == pval[best(pdecl, url)]
+//@   ensures[none] best(pdecl, pkey(url)) == "" ==> result.Value == nil
+//@   ensures[the-matched-node] best(pdecl, pkey(url)) != "" ==> result.Value == pval[best(pdecl, pkey(url))]
 //@ extern URLTree.InsertDeclaredURL
 //@   modifies pdecl, pval
-//@   ensures[stored] result == nil ==> forall(p, string, pdecl[p] <==> (old(pdecl)[p] || p == url)) && pval[url] == value && forall(p, string, p != url ==> pval[p] == old(pval)[p])
+//@   ensures[stored] result == nil ==> forall(p, string, pdecl[p] <==> (old(pdecl)[p] || p == pkey(url))) && pval[pkey(url)] == value && forall(p, string, p != pkey(url) ==> pval[p] == old(pval)[p])
 //@   ensures[unchanged-on-error] result != nil ==> pdecl == old(pdecl) && pval == old(pval)
 //@ extern urltree.NewEndpointTree
 //@   modifies pdecl, pval
@@ -167,7 +169,7 @@ package config
 // Data invariant of the policy tree (from the statement): the policies stored on a pattern are those DECLARED for that
 // pattern, and no two patterns share a policy map.
 //@ ghost func polValues() bool = forall(p, string, pdecl[p] ==> p != "" && pval[p] != nil && allocated(pval[p]) && *pval[p] != nil && allocated(*pval[p]))
-//@ ghost func polOwn() bool = forall(p, string, forall(m, urltree.Method, pdecl[p] && in(m, *pval[p]) ==> (*pval[p])[m].URL == p))
+//@ ghost func polOwn() bool = forall(p, string, forall(m, urltree.Method, pdecl[p] && in(m, *pval[p]) ==> pkey((*pval[p])[m].URL) == p))
 //@ ghost func polDistinct() bool = forall(p, string, forall(q, string, pdecl[p] && pdecl[q] && p != q ==> *pval[p] != *pval[q]))
 
 //@ extern checkForDuplicates
@@ -175,7 +177,7 @@ package config
 
 //@ func BuildEndpointPolicyTree
 //@   prop C13
-//@   requires forall(j, 0, len(endpoints), endpoints[j].URL != "")
+//@   requires forall(j, 0, len(endpoints), pkey(endpoints[j].URL) != "")
 //@   modifies pdecl, pval, heap
 //@   allocates EndpointTree, cell, map
 //@   loop 1 invariant[stored-values] polValues()
@@ -187,10 +189,10 @@ package config
 //@   prop C13
 //@   modifies nothing
 //@   loop 1 modifies nothing
-//@   loop 1 invariant[all-so-far] forall(m, urltree.Method, in(m, seen1) ==> policies[m].URL == url)
-//@   loop 1 invariant[some-so-far] declaredOn ==> exists(m, urltree.Method, in(m, policies) && policies[m].URL == url)
-//@   ensures[all-entries] result ==> forall(m, urltree.Method, in(m, policies) ==> policies[m].URL == url)
-//@   ensures[some-entry] result ==> exists(m, urltree.Method, in(m, policies) && policies[m].URL == url)
+//@   loop 1 invariant[all-so-far] forall(m, urltree.Method, in(m, seen1) ==> pkey(policies[m].URL) == pkey(url))
+//@   loop 1 invariant[some-so-far] declaredOn ==> exists(m, urltree.Method, in(m, policies) && pkey(policies[m].URL) == pkey(url))
+//@   ensures[all-entries] result ==> forall(m, urltree.Method, in(m, policies) ==> pkey(policies[m].URL) == pkey(url))
+//@   ensures[some-entry] result ==> exists(m, urltree.Method, in(m, policies) && pkey(policies[m].URL) == pkey(url))
 
 // ---------------------------------------------------------------------------------------------------------------------
 // C08: the disk half of "a configuration update is all-or-nothing". Ghost file system restricted to the managed
